@@ -998,6 +998,10 @@ pub fn minimise(check: &dyn Check, known: &Known, plan: &Plan, sig: &Signature) 
             if tried >= 2000 || start.elapsed().as_secs() >= 20 {
                 return (best, tried);
             }
+            if cand == best {
+                // a "simplification" that is already in place is no progress
+                continue;
+            }
             tried += 1;
             if fails_with(check, known, &cand, sig) {
                 best = cand;
